@@ -251,7 +251,7 @@ class PjRpcMocker:
         id: Optional[JsonRpcRequestId],
     ) -> Response:
         matches = self._matches[endpoint].get((version, method_name))
-        if matches is None:
+        if not matches:
             return pjrpc.Response(id=id, error=pjrpc.exc.MethodNotFoundError(data=method_name))
 
         match = matches.pop(0)
